@@ -173,7 +173,7 @@ func init() {
 		Jobs: func(e *Engine, tier string) []*Job {
 			family := []string{`^(ssn|email|phoneNumber)$`, `(?i)^ssn$`, `secret`}
 			var jobs []*Job
-			specs := corpusFor(tier, func(t tplSpec) bool { return !t.Tags["search"] && !strings.Contains(t.Name, "search") })
+			specs := corpusFor(tier, func(t tplSpec) bool { return !t.Tags["search"] && !strings.Contains(strings.ToLower(t.Name), "search") })
 			for fi, pat := range family {
 				re := regexp.MustCompile(pat)
 				for v := range e.vocab {
@@ -182,7 +182,7 @@ func init() {
 					}
 				}
 				for si, sp := range specs {
-					if tier == "quick" && (si+fi)%3 != 0 {
+					if tier == "quick" && (si+2*fi)%6 != 0 {
 						continue // quick: each template with one member of the family (rotating)
 					}
 					tpl, err := ParseTemplate("L0", sp.Text)
